@@ -17,6 +17,7 @@ Proof.
     destruct ((100 <=? v) && (v <? 200)) eqn:E2; [inversion H; subst; lia|].
     destruct ((300 <=? v) && (v <? 400)) eqn:E3; inversion H; subst. lia.
   - destruct ((0 <=? x) && (x <? 90)) eqn:E; inversion H; subst. lia.
+  - destruct ((x =? 200) || (x =? 203)) eqn:E; inversion H; subst. exact E.
 Qed.
 
 Lemma default_list_valid vk mn mx d l :
